@@ -50,6 +50,8 @@ def xcfg : XCfg :=
     createUsesCachedBoot := Gen.C06.createUsesCachedBoot
     threadsSorts := Gen.C06.threadsSorts
     threadsSkipsVanished := Gen.C06.threadsSkipsVanished
-    threadsChecksAlive := Gen.C06.threadsChecksAlive }
+    threadsChecksAlive := Gen.C06.threadsChecksAlive
+    threadsSkipsEsrch := Gen.C06.threadsSkipsEsrch
+    threadsHitStartsFalse := Gen.C06.threadsHitStartsFalse }
 
 end Psutil.C06
